@@ -86,6 +86,20 @@ where
         if b1.to_vec() != b2.to_vec() {
             return "mismatch precalc_encrypt(PrecalcSecretKey::precalculate) != precalc_encrypt(KeyPair::precalculate)".into();
         }
+        // … and (nightly) with the precomputed key held in locked / read-only locked memory
+        #[cfg(feature = "nightly")]
+        {
+            use dryoc::precalc::PrecalcSecretKey as PSK;
+            let l1 = PSK::precalculate_locked(&pk, &sk).unwrap();
+            let l2 = PSK::precalculate_readonly_locked(&pk, &sk).unwrap();
+            let b3: DryocBox<E, M, D> = DryocBox::precalc_encrypt(m, &nonce, &l1).unwrap();
+            let b4: DryocBox<E, M, D> = DryocBox::precalc_encrypt(m, &nonce, &l2).unwrap();
+            if b3.to_vec() != b1.to_vec() || b4.to_vec() != b1.to_vec() {
+                return "mismatch precalc_encrypt with a locked / read-only locked precomputed key".into();
+            }
+            let d4: Result<Vec<u8>, _> = b1.precalc_decrypt(&nonce, &l2);
+            if d4.ok().as_deref() != Some(m) { return "mismatch precalc_decrypt with a read-only locked precomputed key".into(); }
+        }
         b1
     } else {
         DryocBox::encrypt(m, &nonce, &pk, &sk).unwrap()
@@ -164,6 +178,25 @@ where
     let dec: Result<Vec<u8>, _> = bx.unseal(&kp);
     match dec {
         Ok(d) => ok(&d),
+        Err(_) => "err".into(),
+    }
+}
+
+fn bx_seal<E, M, D>(rpk: &[u8], m: &[u8], esk: &[u8]) -> String
+where
+    E: NewByteArray<32> + Zeroize,
+    M: NewByteArray<16> + Zeroize,
+    D: NewBytes + ResizableBytes + Zeroize,
+{
+    let rpk: [u8; 32] = arr(rpk);
+    #[cfg(feature = "hooks")]
+    dryoc::rng::verif_hooks::set_entropy(Some(esk.to_vec()));
+    let _ = esk;
+    let r: Result<DryocBox<E, M, D>, _> = DryocBox::seal(m, &rpk);
+    #[cfg(feature = "hooks")]
+    dryoc::rng::verif_hooks::set_entropy(None);
+    match r {
+        Ok(b) => ok(&b.to_vec()),
         Err(_) => "err".into(),
     }
 }
@@ -261,6 +294,8 @@ pub fn dispatch(op: &str, a: &[&str], _b: &[Vec<u8>]) -> Option<Ans> {
         "boxobj_precalc_encrypt" => by_cont3!(bx_enc, &b[0], &b[1], &b[2], &b[3], true),
         "boxobj_decrypt" => by_cont3!(bx_dec, &b[0], &b[1], &b[2], &b[3], false),
         "boxobj_precalc_decrypt" => by_cont3!(bx_dec, &b[0], &b[1], &b[2], &b[3], true),
+        // boxobj_seal <cont> rpk msg esk : DryocBox::seal over containers, ephemeral key fixed by the entropy hook
+        "boxobj_seal" => by_cont3!(bx_seal, &b[0], &b[1], &b[2]),
         // boxobj_unseal <cont> rpk rsk bytes
         "boxobj_unseal" => by_cont3!(bx_unseal, &b[0], &b[1], &b[2]),
         _ => return None,
